@@ -5,6 +5,7 @@ package main
 // (the thorough tier runs the same stress under the race detector).
 
 import (
+	"bytes"
 	"fmt"
 	"sort"
 	"strings"
@@ -82,8 +83,20 @@ func keptResults(a, b map[string]interface{}) string {
 		{"Gob", func(m map[string]interface{}) []byte { x, _ := mxj.Map(m).Gob(); return x }},
 		{"AnyXml", func(m map[string]interface{}) []byte { x, _ := mxj.AnyXml(m, "r", "e"); return x }},
 		{"AnyXmlIndent", func(m map[string]interface{}) []byte { x, _ := mxj.AnyXmlIndent(m, "", " ", "r", "e"); return x }},
+		// the Raw Writer forms hand the encoded bytes back as well
+		{"JsonWriterRaw", func(m map[string]interface{}) []byte {
+			var w bytes.Buffer
+			x, _ := mxj.Map(m).JsonWriterRaw(&w)
+			return x
+		}},
+		{"JsonIndentWriterRaw", func(m map[string]interface{}) []byte {
+			var w bytes.Buffer
+			x, _ := mxj.Map(m).JsonIndentWriterRaw(&w, "", " ")
+			return x
+		}},
 	}
 	for _, e := range encs {
+		e.f(b) // (a recycled buffer is then large enough for what follows: nothing below re-allocates it)
 		x := e.f(a)
 		kept := string(x)
 		e.f(b)
